@@ -127,7 +127,9 @@ type SubCounter struct {
 	Closed int
 	// FailSubscribe makes the n-th Subscribe call (1-based) fail when > 0.
 	FailSubscribe int
-	calls         int
+	// SlowClose delays every subscription Close by this much (virtual) time.
+	SlowClose time.Duration
+	calls     int
 }
 
 func (c *SubCounter) Open() int { c.mu.Lock(); defer c.mu.Unlock(); return c.Opened - c.Closed }
@@ -144,6 +146,13 @@ type countingSub struct {
 }
 
 func (s *countingSub) Close() error {
+	s.c.mu.Lock()
+	slow := s.c.SlowClose
+	s.c.mu.Unlock()
+	if slow > 0 {
+		// makes "Close waited for the goroutine that owns the subscription" observable in virtual time
+		time.Sleep(slow)
+	}
 	s.once.Do(func() { s.c.mu.Lock(); s.c.Closed++; s.c.mu.Unlock() })
 	return s.Subscription.Close()
 }
